@@ -629,3 +629,6 @@ def run(rep, program: Program, tier: str) -> None:
     from . import samplersim
 
     rep.isolate(samplersim.rule, rep, program, tier, PROP, "R8")
+    from . import transim
+
+    rep.isolate(transim.rule, rep, program, PROP, "R9")
